@@ -1,5 +1,5 @@
 (* Properties/C11.v — Write acknowledgements are truthful and reach the right caller. *)
-From Verif Require Import Base.Prelude Store.Spec Store.Partition Store.Proofs Proto.Notify Proto.NotifyProofs Generated.Facts.
+From Verif Require Import Base.Prelude Store.Spec Store.Partition Store.Proofs Proto.Notify Proto.NotifyProofs Proto.BatchFanIn Proto.BatchFanInProofs Generated.Facts.
 Open Scope N_scope.
 
 Definition buf_now : nat := match propose_notif_buf with Known n => n | Unrecognised _ => O end.
@@ -8,8 +8,11 @@ Lemma C11_facts_ok :
   propose_notif_buf = Known 1%nat /\ apply_notify_nonblocking = Known true /\ propose_order = Known true /\
   proxy_returns_err = Known true /\ dimension_checked_first = Known true /\
   (* waiter ids are random UUIDs: the id inside a log entry names at most one waiter in the whole cluster *)
-  notification_ids_global = Known true.
+  notification_ids_global = Known true /\
+  (* every partition worker of a batch hands its result to the collector with a blocking send *)
+  batch_results_sent_blocking = Known true.
 Proof. repeat split; reflexivity. Qed.
+Definition batch_send_blocking_now : bool := match batch_results_sent_blocking with Known b => b | Unrecognised _ => false end.
 Lemma buf_positive : (0 < buf_now)%nat. Proof. unfold buf_now. simpl. lia. Qed.
 
 (* every number of concurrent callers, every interleaving with the apply loop (apply completing before the caller waits
@@ -49,7 +52,23 @@ Theorem C11_batch_errors : forall (I : Type) (X : index_ops I) (G : I -> Prop),
   forall s c ch, G s -> eqc (view X s) c -> snd (p_apply X s ch) = snd (spec_apply c ch).
 Proof. intros I X G H1 H2 H3 H4 H5 H6 s c ch Gs V. exact (proj2 (proj2 (p_apply_refines X G H1 H2 H3 H4 H5 H6 s c ch Gs V))). Qed.
 
+(* the fan-in of a batch over its partitions: under every interleaving of the partition workers, the closer and the
+   collector, a call that returns reports exactly the failures the partitions reported - none is lost, no receive finds
+   the channel closed - and the collector is never stuck while results are outstanding *)
+Theorem C11_batch_fanin_complete : forall rs sched,
+  let s := bfan_run batch_send_blocking_now (length rs) (bfan_init rs) sched in
+  bfan_done (length rs) s = true -> Permutation (b_got s) rs /\ (forall x, In x (bfan_errors s) <-> In x (concat rs)).
+Proof. exact batch_fanin_complete. Qed.
+Theorem C11_batch_fanin_progress : forall rs sched,
+  let s := bfan_run batch_send_blocking_now (length rs) (bfan_init rs) sched in
+  bfan_done (length rs) s = false -> exists s', bfan_step batch_send_blocking_now (length rs) s (BRendezvous 0) = Some s'.
+Proof. exact batch_fanin_progress. Qed.
+
 (* regressions *)
+Theorem C11_giving_up_loses_results_refuted :
+  let s := bfan_run false 1 (bfan_init [[(1, 7)]]) [BGiveUp 0; BClose; BRecvClosed] in
+  bfan_done 1 s = true /\ bfan_errors s = [] /\ In (1, 7) (concat [[(1, 7)]]).
+Proof. exact giving_up_loses_results_refuted. Qed.
 Theorem C11_lost_wakeup_refuted :
   let sched := [Create 0; Propose 0; ApplyNotify 0; StartWait 0; Deadline 0]%nat in
   (let c := nth 0 (n_run 0 (n_init [42]) sched) dcaller in st c = CTimedOut /\ applied c = true) /\
@@ -62,3 +81,5 @@ Print Assumptions C11_delivery.
 Print Assumptions C11_apply_never_blocks.
 Print Assumptions C11_truthful.
 Print Assumptions C11_batch_errors.
+Print Assumptions C11_batch_fanin_complete.
+Print Assumptions C11_batch_fanin_progress.
